@@ -9,7 +9,7 @@ PROPS_V = "theories/Props/C17.v"
 THEOREMS = [
     "C17_parse_print_expr", "C17_parse_print_expr_refuted", "C17_precedence", "C17_keywords_ci",
     "C17_parse_print_query", "C17_parse_print_command", "C17_fuel_enough", "C17_parse_total", "C17_numeric_limits",
-    "C17_store_string_braces",
+    "C17_store_string_braces", "C17_no_exponential_witness",
     "C17_dispatch_refuted", "C17_dispatch_outside_known",
 ]
 RULE = ("command texts from seven generators: (rt) print of a random well-formed Query AST by the extracted Coq printer "
@@ -28,7 +28,7 @@ ASSUMPTIONS = [
 ]
 TRUSTED = [
     "Coq 8.16.1 kernel + coqc; vm_compute for closed witnesses; no native_compute",
-    "translator tools/params/p30_dispatch.py (variants of enum Command, arms of dispatch_command, catch-all macro) and p31_query_numeric.py (unwrap vs fallible action in limit_clause/offset_clause/number), p32_tokenizer_symbols.py (Token::Symbol characters), p33_store_braces.py (json_string alternative in balanced_braces)",
+    "translator tools/params/p30_dispatch.py (variants of enum Command, arms of dispatch_command, catch-all macro) and p31_query_numeric.py (unwrap vs fallible action in limit_clause/offset_clause/number), p32_tokenizer_symbols.py (Token::Symbol characters), p33_store_braces.py (json_string alternative in balanced_braces, '{' among its plain characters), p34_expr_reparse.py (single-parse vs re-parsing form of or_expr/and_expr in query.rs and plotql.rs)",
     "extraction: ExtrOcamlBasic only; ocaml/driver.ml, conv.ml, p_parse.ml (rendering, AST decoding)",
     "correspondence harness /verif/harness (vharn fn parse_cmd/parse_disp/parse_kind/parse_json) built against /repo with --cfg sneldb_verif",
     "python oracle: canonical rendering of the generated AST, CPython float()/json (independent of model and implementation)",
@@ -536,17 +536,26 @@ def cases(rng, tier):
         addt("nest", "QUERY e WHERE " + "(" * d + "a = 1 OR b = 2" + ")" * d + " AND c = 3")
         addt("nest", "QUERY e WHERE " + "(" * d + "a = 1" + ")" * (d - 1))
         addt("nest", "QUERY e WHERE " + "( NOT " * d + "a" + " )" * d)
-    for d in ((13, 16, 40) if not big else (12, 13, 14, 16, 20, 40, 200, 5000)):
-        addt("nest", "QUERY e WHERE " + "(" * d + "a = 1" + ")" * d)
-    addt("nest", "REMEMBER QUERY e WHERE " + "(" * 15 + "a = 1" + ")" * 15 + " AS m")
+    # the families on which the grammar took 4^depth / 2^n rule calls before 04c7300, each under its own time
+    # budget (parse_cmdt <ms>): answered in milliseconds now; TIMEOUT = the exponential behaviour is back
+    TB = "parse_cmdt 1500"
+    for d in ((11, 13, 16, 40, 200) if not big else (11, 12, 13, 14, 16, 20, 40, 200, 1000, 5000)):
+        addt("nest", "QUERY e WHERE " + "(" * d + "a = 1" + ")" * d, probe=TB)
+        addt("nest", "QUERY e WHERE " + "(" * d + "a = 1" + ")" * (d - 1), probe=TB)
+        addt("nest", "FIND e WHERE " + "( NOT " * d + "a" + " )" * d + " OR b", probe=TB)
+        addt("nest", "PLOT COUNT OF e FILTER " + "(" * d + "a = 1" + ")" * d, probe=TB)
+    addt("nest", "REMEMBER QUERY e WHERE " + "(" * 15 + "a = 1" + ")" * 15 + " AS m", probe=TB)
+    addt("nest", "BATCH [ QUERY e WHERE " + "(" * 15 + "a = 1" + ")" * 15 + " ]", probe=TB)
     for n in (10, 100, 400, 1000, 3000, 8000, 30000) + ((100000,) if big else ()):
         addt("nest", "QUERY e WHERE " + "NOT " * n + "a = 1")
     addt("nest", "QUERY e WHERE " + "not\n" * 9000 + "(a)")
     for n in (1, 5, 10, 14) + ((18, 20) if big else ()):
         addt("nest", "STORE e FOR c PAYLOAD " + "{" * n)
         addt("nest", "STORE e FOR c PAYLOAD " + "{" * n + "}" * (n - 1))
-    for n in ((34, 60) if not big else (26, 30, 34, 60, 1000)):
-        addt("nest", "STORE e FOR c PAYLOAD " + "{" * n)
+    for n in ((26, 34, 60, 1000) if not big else (26, 30, 34, 60, 1000, 4000)):
+        addt("nest", "STORE e FOR c PAYLOAD " + "{" * n, probe=TB)
+        addt("nest", "STORE e FOR c PAYLOAD " + "{" * n + "}" * (n - 1), probe=TB)
+        addt("nest", "STORE e FOR c PAYLOAD " + '{"a":"' * n, probe=TB)
     for n in (3, 50, 500, 3000, 20000) + ((200000,) if big else ()):
         addt("nest", "STORE e FOR c PAYLOAD " + '{"a":' * n + "1" + "}" * n)
     # STORE: braces / quotes / backslashes inside and outside string literals (fced25a), '+' (b3737c8)
@@ -750,6 +759,8 @@ def same(c, impl, model):
 
 def _text(c):
     t = c["line"].split(" ")
+    if t[0] == "parse_cmdt":
+        t = t[1:]
     try:
         return unhx(t[1]) if len(t) > 1 else b""
     except ValueError:
@@ -798,12 +809,7 @@ def classify(c, impl):
         return None
     if line.startswith("parse_cmd"):
         # (the numeric-conversion panics were repaired by 57cd0c4: a PANIC of parse_cmd has no known class any more)
-        if impl == "TIMEOUT":
-            if up.startswith((b"QUERY", b"FIND", b"REMEMBER", b"BATCH")) and _max_paren_depth(b) >= 11:
-                return "ParenNestingExponential"
-            if up.startswith(b"STORE") and b.count(b"{") - b.count(b"}") >= 20:
-                return "StoreUnclosedBraceExponential"
-            return None
+        # (exponential re-parsing was repaired by 04c7300: a TIMEOUT has no known class any more)
         if impl == "ABORT":
             if up.startswith((b"QUERY", b"FIND", b"REMEMBER")) and \
                     len(re.findall(rb"(?i)\b(not|and|or)\b", b)) + _max_paren_depth(b) >= 3000:
